@@ -109,6 +109,49 @@ extern "C" void h_sequence_index(void) {
    int o = vp_outcome([&] { deref(p[i]); }); vp_assert(i < n ? o == 0 : o == 1, 130);
    vp_done();
 }
+// histories that interleave growth and reads: after every step the sequence must agree with a shadow array
+#ifndef C14_K
+#define C14_K 4
+#endif
+extern "C" void h_sequence_history(void) {
+   zoo::World* w = new zoo::World; auto& lx = w->lx;
+   unsigned kind = vp_pick(8);
+   impl::Enum* e = lx.make_enum(*w->reg, ipr::Enum::Kind::Scoped); impl::Mapping* m = lx.make_mapping(*w->reg, Mapping_level{ 1 }); impl::Class* c = lx.make_class(*w->reg);
+   impl::Block* b = lx.make_block(*w->reg); impl::Module* mod = w->own(new impl::Module(lx)); impl::Namespace* ns = lx.make_namespace(*w->reg); impl::Expr_list* xl = lx.make_expr_list();
+   impl::Using_declaration* ud = lx.make_using_declaration();
+   const ipr::Name* nm[C14_K]; char8_t buf[1];
+   for (int i = 0; i < C14_K; ++i) { buf[0] = char8_t(u8'a' + i); nm[i] = &lx.get_identifier(util::word_view(buf, 1)); }
+   const void* shadow[C14_K]; unsigned n = 0;
+   auto size = [&]() -> std::size_t { switch (kind) {
+      case 0: return static_cast<const ipr::Enum&>(*e).members().size(); case 1: return m->parameters().elements().size(); case 2: return static_cast<const ipr::Class&>(*c).bases().size();
+      case 3: return static_cast<const ipr::Block&>(*b).handlers().size(); case 4: return static_cast<const ipr::Module&>(*mod).implementation_units().size();
+      case 5: return static_cast<const ipr::Namespace&>(*ns).members().size(); case 6: return static_cast<const ipr::Expr_list&>(*xl).elements().size();
+      default: return static_cast<const ipr::Using_declaration&>(*ud).designators().size(); } };
+   auto get = [&](std::size_t i) -> const void* { switch (kind) {
+      case 0: return &at(static_cast<const ipr::Enum&>(*e).members(), i); case 1: return &at(m->parameters().elements(), i); case 2: return &at(static_cast<const ipr::Class&>(*c).bases(), i);
+      case 3: return &at(static_cast<const ipr::Block&>(*b).handlers(), i); case 4: return &at(static_cast<const ipr::Module&>(*mod).implementation_units(), i);
+      case 5: return &at(static_cast<const ipr::Namespace&>(*ns).members(), i); case 6: return &at(static_cast<const ipr::Expr_list&>(*xl).elements(), i);
+      default: return &at(static_cast<const ipr::Using_declaration&>(*ud).designators(), i); } };
+   auto push = [&]() -> const void* { switch (kind) {
+      case 0: return static_cast<const ipr::Enumerator*>(e->add_member(*nm[n])); case 1: return static_cast<const ipr::Parameter*>(m->param(*nm[n], *w->T[n % 3])); case 2: return static_cast<const ipr::Base_type*>(c->declare_base(*w->T[n % 3]));
+      case 3: return static_cast<const ipr::Handler*>(b->new_handler(*nm[n], *w->T[n % 3])); case 4: return static_cast<const ipr::Module_unit*>(mod->make_unit());
+      case 5: return static_cast<const ipr::Decl*>(ns->declare_var(*nm[n], *w->T[n % 3])); case 6: { const ipr::Expr* x = lx.make_id_expr(*nm[n]); xl->push_back(x); return x; }
+      default: return ud->seq.push_back(*lx.make_scope_ref(*w->E[0], *w->E[1]), ipr::Using_declaration::Designator::Mode::Normal); } };
+   for (int step = 0; step < C14_K; ++step) {
+      unsigned op = vp_pick(4);
+      if (op == 0 || n == 0) { shadow[n] = push(); ++n; }                                    // grow
+      else if (op == 1) {                                                                     // positional read, index anywhere in 0..size (one past the end is refused)
+         uint64_t i = nondet_ulong() & 7; vp_assume(i <= n); const void* got = nullptr;
+         int out = vp_outcome([&] { got = get(i); });
+         if (i < n) vp_assert(out == 0 && got == shadow[vp_fork(i)], 300); else vp_assert(out == 1, 301);
+      }
+      else if (op == 2) { const void* got = nullptr; int out = vp_outcome([&] { got = get(n - 1); }); vp_assert(out == 0 && got == shadow[n - 1], 302); }     // the last element
+      else { for (unsigned i = 0; i < n; ++i) vp_assert(get(i) == shadow[i], 303); }                                                                      // full traversal
+      vp_assert(size() == n, 304);
+   }
+   for (unsigned i = 0; i < n; ++i) vp_assert(get(n - 1 - i) == shadow[n - 1 - i], 305);      // backwards
+   vp_done();
+}
 // checked pointers and strings
 extern "C" void h_checked(void) {
    ipr::Optional<ipr::Expr> none; VP_MUST_THROW_LOGIC(none.get(), 200); vp_assert(!none.is_valid() && !none, 201);
